@@ -116,6 +116,12 @@ def gen_generic_seq(rng, gi):
     cls = f"G{gi}"
     units = [f"g{gi}u{i}" for i in range(4)]
     ops = [["decl_class", cls, "-", "-", "0", "-"]] + [["new_unit", cls, u, "none"] for u in units]
+    # two more units that HAVE a definition (1/1000 of the first two): in a type
+    # without reference unit their factors mean nothing to each other - only
+    # the registered converters decide
+    for i in (0, 1):
+        ops.append(["new_unit", cls, f"g{gi}m{i}", "qty", "1/1000", units[i], _money.MODE])
+    units = units + [f"g{gi}m0", f"g{gi}m1"]
     tables = {}
     for name in ("P", "Q", "R"):
         rows = []
@@ -136,6 +142,8 @@ def gen_generic_seq(rng, gi):
             ops.append(["conv_list", cls])
         else:
             u, v = rng.sample(units, 2)
+            if rng.random() < .3:
+                u, v = rng.sample(units[-2:], 2)
             a = rat(Fraction(rng.randint(-50, 50), rng.choice([1, 2, 3])))
             ops.append(["q_conv", f"{a}@{u}", v, _money.MODE])
     ops.append(["conv_list", cls])
